@@ -94,6 +94,22 @@ func init() {
 			}
 		}
 		specs = append(specs, faultScenarios(c, true)...)
+		// state-caching exploration: 4 and 5 tasks, two batches, every task x the step that holds the stream
+		specs = append(specs,
+			encSpec("enc j5 5blk+tail protocol state-caching", 5, 5, 100, -1, "cache", -1),
+			encSpec("enc j4 8blk+tail protocol state-caching", 4, 8, 100, -1, "cache", -1),
+			decSpec("dec j4 4blk+tail protocol state-caching", 4, 4, 100, "cache", -1),
+			decSpec("dec j5 5blk+tail protocol state-caching", 5, 5, 100, "cache", -1))
+		for t := 1; t <= 6; t++ {
+			for _, nth := range []int{0, 2} {
+				s := encSpec(fmt.Sprintf("enc j4 5blk+tail fault T%d stream#%d state-caching", t, nth), 4, 5, 100, -1, "cache", -1)
+				s.FaultThread, s.FaultSite, s.FaultNth = t, "stream", nth
+				specs = append(specs, s)
+				s = decSpec(fmt.Sprintf("dec j4 5blk+tail fault T%d stream#%d state-caching", t, nth), 4, 5, 100, "cache", -1)
+				s.FaultThread, s.FaultSite, s.FaultNth = t, "stream", nth
+				specs = append(specs, s)
+			}
+		}
 		if c.Thorough() {
 			specs = append(specs, encSpec("enc j5 5blk+tail protocol", 5, 5, 100, -1, "sleep", -1))
 			for t := 1; t <= 4; t++ {
